@@ -223,7 +223,7 @@ _BUILTIN_TYPES = {"int": int, "float": float, "str": str, "bool": bool, "list": 
                   "tuple": tuple, "dict": dict, "set": set}
 
 
-GLOBAL_STATE: dict[str, dict[Any, Any]] = {"modconst": {}, "lru": {}, "defaults": {}}
+GLOBAL_STATE: dict[str, dict[Any, Any]] = {"modconst": {}, "lru": {}, "defaults": {}, "class_attrs": {}}
 
 
 def reset_global_state() -> None:
@@ -231,6 +231,7 @@ def reset_global_state() -> None:
     GLOBAL_STATE["modconst"].clear()
     GLOBAL_STATE["lru"].clear()
     GLOBAL_STATE["defaults"].clear()
+    GLOBAL_STATE["class_attrs"].clear()
 
 
 _CACHE_DECORATORS = ("lru_cache", "cache", "functools.lru_cache", "functools.cache", "cached_property")
@@ -279,6 +280,16 @@ class Interp:
             for x in xs:
                 acc = self._apply2(f, acc, x)
             return acc
+
+        def groupby(xs: Any, key: Any = None) -> Any:
+            out: list[Any] = []
+            for x in self.iterate(xs):
+                k = x if key is None else self._apply(key, x)
+                if out and self._eq(out[-1][0], k):
+                    out[-1][1].append(x)
+                else:
+                    out.append((k, [x]))
+            return out
 
         def mean(xs: Any) -> Any:
             xs = list(self.iterate(xs))
@@ -357,6 +368,20 @@ class Interp:
             "copy.deepcopy": deepcopy,
             "copy.copy": shallow,
             "operator.attrgetter": attrgetter,
+            **{f"operator.{nm}": (lambda x, y, _op=op, _ip=ip: self.binop(_op, x, y, ast.Constant(value=None), inplace=_ip))
+               for nm, op, ip in (("add", ast.Add(), False), ("iadd", ast.Add(), True), ("sub", ast.Sub(), False),
+                                  ("mul", ast.Mult(), False), ("imul", ast.Mult(), True), ("or_", ast.BitOr(), False),
+                                  ("ior", ast.BitOr(), True), ("and_", ast.BitAnd(), False), ("iand", ast.BitAnd(), True),
+                                  ("concat", ast.Add(), False), ("iconcat", ast.Add(), True),
+                                  ("truediv", ast.Div(), False), ("floordiv", ast.FloorDiv(), False),
+                                  ("mod", ast.Mod(), False), ("xor", ast.BitXor(), False))},
+            **{f"operator.{nm}": (lambda x, y, _op=op: self.compare(_op, x, y, ast.Constant(value=None)))
+               for nm, op in (("eq", ast.Eq()), ("ne", ast.NotEq()), ("lt", ast.Lt()), ("le", ast.LtE()),
+                              ("gt", ast.Gt()), ("ge", ast.GtE()), ("is_", ast.Is()), ("is_not", ast.IsNot()),
+                              )},
+            "operator.contains": lambda x, y: self.compare(ast.In(), y, x, ast.Constant(value=None)),
+            "operator.not_": lambda x: not self.truth(x),
+            "operator.truth": lambda x: self.truth(x),
             "operator.itemgetter": itemgetter,
             "logging.getLogger": lambda *a, **k: _Logger(),
             "logging.warn": lambda *a, **k: None,
@@ -372,6 +397,18 @@ class Interp:
             "itertools.product": lambda *xs: list(_it.product(*[list(self.iterate(x)) for x in xs])),
             "itertools.chain": lambda *xs: [y for x in xs for y in self.iterate(x)],
             "functools.reduce": reduce,
+            "itertools.groupby": groupby,
+            "itertools.permutations": lambda xs, k=None: list(_it.permutations(list(self.iterate(xs)), k)),
+            "itertools.accumulate": lambda xs, f=None: list(_acc(self, xs, f)),
+            "itertools.islice": lambda xs, *a: list(_it.islice(list(self.iterate(xs)), *a)),
+            "itertools.zip_longest": lambda *xs, fillvalue=None: list(_it.zip_longest(*[list(self.iterate(x)) for x in xs], fillvalue=fillvalue)),
+            "itertools.repeat": lambda x, k: [x] * k,
+            "itertools.starmap": lambda f, xs: [self.apply_value(f, list(self.iterate(a)), {}, ast.Constant(value=None), "", None) for a in self.iterate(xs)],
+            "itertools.takewhile": lambda f, xs: list(_it.takewhile(lambda x: self.truth(self._apply(f, x)), list(self.iterate(xs)))),
+            "itertools.dropwhile": lambda f, xs: list(_it.dropwhile(lambda x: self.truth(self._apply(f, x)), list(self.iterate(xs)))),
+            "itertools.filterfalse": lambda f, xs: [x for x in self.iterate(xs) if not self.truth(self._apply(f, x) if f is not None else x)],
+            "itertools.chain.from_iterable": lambda xs: [y for x in self.iterate(xs) for y in self.iterate(x)],
+            "functools.partial": lambda f, *a, **k: (lambda *b, **k2: self.apply_value(f, list(a) + list(b), {**k, **k2}, ast.Constant(value=None), "", None)),
             "statistics.mean": mean,
             "statistics.median": median,
             "logging.warning": lambda *a, **k: None,
@@ -457,7 +494,16 @@ class Interp:
             e2[nm] = self.eval(d, f.env, f.fi)
         for nm, v in zip(names, args):
             e2[nm] = v
-        e2.update(kwargs)
+        if a.vararg is not None:
+            e2[a.vararg.arg] = tuple(args[len(names):])
+        elif len(args) > len(names):
+            raise AnalysisError("ABSINT", f"too many arguments for local {f.node.name}")
+        if a.kwarg is not None:
+            known = set(names) | {x.arg for x in a.kwonlyargs}
+            e2[a.kwarg.arg] = {k: v for k, v in kwargs.items() if k not in known}
+            e2.update({k: v for k, v in kwargs.items() if k in known})
+        else:
+            e2.update(kwargs)
         self.depth += 1
         if self.depth > self.max_depth:
             self.depth -= 1
@@ -479,7 +525,11 @@ class Interp:
         names = [x.arg for x in a.posonlyargs + a.args]
         env: dict[str, Any] = {}
         if len(args) > len(names):
-            raise AnalysisError("ABSINT", f"too many arguments for {fi.qual}")
+            if a.vararg is None:
+                raise AnalysisError("ABSINT", f"too many arguments for {fi.qual}")
+            env[a.vararg.arg] = tuple(args[len(names):])
+        elif a.vararg is not None:
+            env[a.vararg.arg] = ()
         for n, v in zip(names, args):
             env[n] = v
         defaults = a.defaults
@@ -487,8 +537,17 @@ class Interp:
         for n, d in zip(dnames, defaults):
             if n not in env and n not in kwargs:
                 env[n] = self._default(fi, n, d)
+        known = set(names) | {x.arg for x in a.kwonlyargs}
+        extra: dict[str, Any] = {}
         for k, v in kwargs.items():
-            env[k] = v
+            if k in known:
+                env[k] = v
+            elif a.kwarg is not None:
+                extra[k] = v
+            else:
+                raise AbsRaise(f"TypeError unexpected keyword argument {k!r} for {fi.qual}")
+        if a.kwarg is not None:
+            env[a.kwarg.arg] = extra
         for kw, d in zip(a.kwonlyargs, a.kw_defaults):
             if kw.arg not in env and d is not None:
                 env[kw.arg] = self._default(fi, kw.arg, d)
@@ -525,7 +584,7 @@ class Interp:
             return
         if isinstance(st, ast.AugAssign):
             cur = self.eval(_load(st.target), env, fi)
-            v = self.binop(st.op, cur, self.eval(st.value, env, fi), st)
+            v = self.binop(st.op, cur, self.eval(st.value, env, fi), st, inplace=True)
             self.assign(st.target, v, env, fi)
             return
         if isinstance(st, ast.Expr):
@@ -654,6 +713,9 @@ class Interp:
                 obj._f[t.attr] = v
             elif is_native(obj):
                 setattr(obj, t.attr, v)
+            elif isinstance(obj, ClassRef):
+                GLOBAL_STATE["class_attrs"][(obj.ci.qual, t.attr)] = v     # visible process-wide
+                obj.ci.class_attrs.setdefault(t.attr, ast.Constant(value=None))
             else:
                 raise AnalysisError("ABSINT", f"attribute store outside fragment: {src(t)}")
         elif isinstance(t, ast.Subscript):
@@ -663,6 +725,8 @@ class Interp:
                 if getattr(obj, "_frozen", False):
                     raise AbsMutation(f"subscript store into an input container ({src(t)})",
                                       loc(fi.unit.path, t) if fi else "")
+                if isinstance(obj, dict):
+                    idx = self.canon_key(obj, idx)
                 obj[idx] = v
             else:
                 raise AnalysisError("ABSINT", f"subscript store outside fragment: {src(t)}")
@@ -759,7 +823,8 @@ class Interp:
                 if k is None:
                     d.update(self.eval(v2, env, fi))
                 else:
-                    d[self.eval(k, env, fi)] = self.eval(v2, env, fi)
+                    kk = self.eval(k, env, fi)
+                    d[self.canon_key(d, kk)] = self.eval(v2, env, fi)
             return d
         if isinstance(n, (ast.ListComp, ast.SetComp, ast.GeneratorExp)):
             out: list[Any] = []
@@ -769,7 +834,8 @@ class Interp:
             dd: dict[Any, Any] = {}
 
             def put(e: dict[str, Any]) -> None:
-                dd[self.eval(n.key, e, fi)] = self.eval(n.value, e, fi)
+                kk = self.eval(n.key, e, fi)
+                dd[self.canon_key(dd, kk)] = self.eval(n.value, e, fi)
             self._comp(n.generators, 0, dict(env), fi, put)
             return dd
         if isinstance(n, ast.Subscript):
@@ -782,6 +848,8 @@ class Interp:
             if isinstance(obj, tuple) and len(obj) == 2 and obj[0] == "builtin":
                 return obj           # list["X"] -> list
             idx = self.eval(n.slice, env, fi)
+            if isinstance(obj, dict):
+                idx = self.canon_key(obj, idx)
             try:
                 return obj[idx]
             except (IndexError, KeyError, TypeError) as exc:
@@ -847,7 +915,54 @@ class Interp:
             raise AnalysisError("ABSINT", f"str() of abstract {v._cls} without __str__")
         return str(v)
 
-    def binop(self, op: ast.operator, a: Any, b: Any, n: ast.AST) -> Any:
+    def binop(self, op: ast.operator, a: Any, b: Any, n: ast.AST, inplace: bool = False) -> Any:
+        if inplace and isinstance(a, (list, set, dict)):
+            # augmented assignment on a mutable container updates the object itself: every alias sees it
+            if getattr(a, "_frozen", False):
+                raise AbsMutation(f"in-place {type(op).__name__} on an input container ({src(n)})",
+                                  "")
+            if isinstance(a, list) and isinstance(op, ast.Add):
+                a.extend(self.iterate(b))
+                return a
+            if isinstance(a, list) and isinstance(op, ast.Mult):
+                a[:] = list(a) * b
+                return a
+            if isinstance(a, set) and isinstance(b, (set, frozenset)) and \
+                    isinstance(op, (ast.BitOr, ast.BitAnd, ast.Sub, ast.BitXor)) and \
+                    (any(self._has_abs(x) for x in a) or any(self._has_abs(x) for x in b)):
+                res2 = self.binop(op, set(a), b, n)
+                a.clear()
+                a.update(res2)
+                return a
+            if isinstance(a, set) and isinstance(b, (set, frozenset)):
+                if isinstance(op, ast.BitOr):
+                    a |= b
+                    return a
+                if isinstance(op, ast.BitAnd):
+                    a &= b
+                    return a
+                if isinstance(op, ast.Sub):
+                    a -= b
+                    return a
+                if isinstance(op, ast.BitXor):
+                    a ^= b
+                    return a
+            if isinstance(a, dict) and isinstance(op, ast.BitOr) and isinstance(b, dict):
+                a.update(b)
+                return a
+        if isinstance(a, (set, frozenset)) and isinstance(b, (set, frozenset)) and \
+                isinstance(op, (ast.BitOr, ast.BitAnd, ast.Sub, ast.BitXor)) and \
+                (any(self._has_abs(x) for x in a) or any(self._has_abs(x) for x in b)):
+            mem = lambda x, xs: any(self._eq(x, y) for y in xs)  # noqa: E731
+            if isinstance(op, ast.BitOr):
+                res = self.dedupe(list(a) + list(b))
+            elif isinstance(op, ast.BitAnd):
+                res = [x for x in a if mem(x, b)]
+            elif isinstance(op, ast.Sub):
+                res = [x for x in a if not mem(x, b)]
+            else:
+                res = [x for x in a if not mem(x, b)] + [y for y in b if not mem(y, a)]
+            return type(a)(res)
         if isinstance(a, OrdInt) or isinstance(b, OrdInt):
             # outside the comparison-only fragment: still decided on every point of the box, but the
             # order-type completeness argument does not cover it (recorded, reported in evidence)
@@ -937,15 +1052,34 @@ class Interp:
         if isinstance(a, AObj) and isinstance(b, AObj):
             if a is b:
                 return True
-            if a._cls == b._cls and self.pm.has_cls(a._cls):
+            if self.pm.has_cls(a._cls):
                 m = self.pm.method(self.pm.cls(a._cls), "__eq__")
                 if m is not None and not m.unit.env:
-                    return bool(self.call(m, [a, b]))
+                    return self.truth(self.call(m, [a, b]))
             return False
         if isinstance(a, AObj) or isinstance(b, AObj):
+            # the object's own __eq__ decides (it is also asked about values of other types)
+            o, other = (a, b) if isinstance(a, AObj) else (b, a)
+            if self.pm.has_cls(o._cls) and not isinstance(other, (AObjProxy,)) and not is_native(other):
+                m = self.pm.method(self.pm.cls(o._cls), "__eq__")
+                if m is not None and not m.unit.env:
+                    return self.truth(self.call(m, [o, other]))
             return False
         if isinstance(a, (list, tuple)) and isinstance(b, (list, tuple)) and type(a) is type(b):
             return len(a) == len(b) and all(self._eq(x, y) for x, y in zip(a, b))
+        if isinstance(a, (set, frozenset)) and isinstance(b, (set, frozenset)) and \
+                (any(self._has_abs(x) for x in a) or any(self._has_abs(x) for x in b)):
+            return len(a) == len(b) and all(any(self._eq(x, y) for y in b) for x in a)
+        if isinstance(a, dict) and isinstance(b, dict) and \
+                (any(self._has_abs(x) for x in a) or any(self._has_abs(x) for x in a.values())
+                 or any(self._has_abs(x) for x in b) or any(self._has_abs(x) for x in b.values())):
+            if len(a) != len(b):
+                return False
+            for k, v in a.items():
+                k2 = self.canon_key(b, k)
+                if k2 not in b or not self._eq(v, b[k2]):
+                    return False
+            return True
         return a == b
 
     # -- names, attributes, calls ---------------------------------------------------------------
@@ -1060,8 +1194,7 @@ class Interp:
                     return BoundMethod(obj, m, self.decorated_attrs(m))
                 for c in self.pm.mro(ci):
                     if attr in c.class_attrs:
-                        fake = FuncInfo(f"{c.qual}.<class>", "<class>", ast.FunctionDef(name="<class>"), c.unit)  # type: ignore
-                        return self.eval(c.class_attrs[attr], {}, fake)
+                        return self.class_attr(c, attr)
             if obj._f.get("_complete"):
                 raise AbsRaise(f"AttributeError: '{obj._cls}' object has no attribute '{attr}'", where)
             raise AnalysisError("ABSINT", f"observation {obj._cls}.{attr} is outside the abstract "
@@ -1076,8 +1209,7 @@ class Interp:
                     return EnumVal(ci.name, attr, mem[attr])
             for c in self.pm.mro(ci):
                 if attr in c.class_attrs:
-                    fake = FuncInfo(f"{c.qual}.<class>", "<class>", ast.FunctionDef(name="<class>"), c.unit)  # type: ignore
-                    return self.eval(c.class_attrs[attr], {}, fake)
+                    return self.class_attr(c, attr)
                 if attr in c.methods:
                     return FuncRef(c.methods[attr])
             for q, c2 in self.pm.classes.items():
@@ -1139,7 +1271,20 @@ class Interp:
                 args.extend(self.iterate(self.eval(a.value, env, fi)))
             else:
                 args.append(self.eval(a, env, fi))
-        kwargs = {k.arg: self.eval(k.value, env, fi) for k in n.keywords if k.arg}
+        kwargs: dict[str, Any] = {}
+        for k in n.keywords:
+            if k.arg:
+                kwargs[k.arg] = self.eval(k.value, env, fi)
+            else:
+                more = self.eval(k.value, env, fi)
+                if not isinstance(more, dict):
+                    raise AnalysisError("ABSINT", f"** of a non-dict outside fragment: {src(n)}", where)
+                kwargs.update(more)
+        return self.apply_value(f, args, kwargs, n, where, fi)
+
+    def apply_value(self, f: Any, args: list[Any], kwargs: dict[str, Any], n: ast.AST, where: str,
+                    fi: Optional[FuncInfo]) -> Any:  # noqa: C901
+        """Call of an already evaluated callee (also used for callables passed as values)."""
         if isinstance(f, BoundMethod):
             return self.call(f.fi, [f.obj] + args, kwargs)
         if isinstance(f, FuncRef):
@@ -1148,8 +1293,20 @@ class Interp:
             return self.call(f.fi, args, kwargs)
         if isinstance(f, Lambda):
             e2 = dict(f.env)
-            for p, v in zip([x.arg for x in f.node.args.args], args):
+            la = f.node.args
+            ps = [x.arg for x in la.posonlyargs + la.args]
+            for p, d in zip(ps[len(ps) - len(la.defaults):] if la.defaults else [], la.defaults):
+                e2[p] = self.eval(d, f.env, f.fi)
+            for p, v in zip(ps, args):
                 e2[p] = v
+            if la.vararg is not None:
+                e2[la.vararg.arg] = tuple(args[len(ps):])
+            elif len(args) > len(ps):
+                raise AbsRaise(f"TypeError: lambda takes {len(ps)} positional arguments but {len(args)} were given", where)
+            e2.update(kwargs)
+            for p in ps:
+                if p not in e2:
+                    raise AbsRaise(f"TypeError: lambda missing argument {p!r}", where)
             return self.eval(f.node.body, e2, f.fi)
         if isinstance(f, LocalFunc):
             return self.call_local(f, args, kwargs)
@@ -1201,10 +1358,45 @@ class Interp:
                     res.reverse()
                 obj[:] = res
                 return None
+            if isinstance(obj, (set, dict)) and not isinstance(obj, TaggedList):
+                # hashed containers compare their keys with the keys' own __hash__/__eq__
+                if attr in ("get", "setdefault", "pop", "add", "discard", "remove") and args \
+                        and not (attr == "pop" and isinstance(obj, set)):
+                    args = [self.canon_key(obj, args[0])] + list(args[1:])
+                elif attr == "update" and isinstance(obj, set):
+                    for extra in args:
+                        for x in self.iterate(extra):
+                            obj.add(self.canon_key(obj, x))
+                    return None
+                elif attr == "update" and isinstance(obj, dict) and args and isinstance(args[0], dict):
+                    for k2, v2 in args[0].items():
+                        obj[self.canon_key(obj, k2)] = v2
+                    args = []
+                    if not kwargs:
+                        return None
+                elif attr in ("union", "difference", "intersection", "issubset", "symmetric_difference",
+                              "issuperset", "isdisjoint") and isinstance(obj, set) and \
+                        any(self._has_abs(x) for x in obj):
+                    others = [list(self.iterate(a)) for a in args]
+                    mem = lambda x, xs: any(self._eq(x, y) for y in xs)  # noqa: E731
+                    if attr == "union":
+                        return set(self.dedupe(list(obj) + [y for o in others for y in o]))
+                    if attr == "difference":
+                        return {x for x in obj if not any(mem(x, o) for o in others)}
+                    if attr == "intersection":
+                        return {x for x in obj if all(mem(x, o) for o in others)}
+                    if attr == "issubset":
+                        return all(mem(x, others[0]) for x in obj)
+                    if attr == "issuperset":
+                        return all(mem(y, obj) for y in others[0])
+                    if attr == "isdisjoint":
+                        return not any(mem(x, others[0]) for x in obj)
+                    return {x for x in obj if not mem(x, others[0])} | {y for y in self.dedupe(others[0]) if not mem(y, obj)}
             if isinstance(obj, (list, set, dict, tuple)) and attr in (
                     "append", "extend", "add", "update", "pop", "insert", "keys", "values",
                     "items", "get", "index", "count", "copy", "remove", "sort", "reverse", "clear",
-                    "setdefault", "discard", "union", "difference", "intersection", "issubset"):
+                    "setdefault", "discard", "union", "difference", "intersection", "issubset",
+                    "symmetric_difference", "issuperset", "isdisjoint", "popitem"):
                 try:
                     return getattr(obj, attr)(*args, **kwargs)
                 except (IndexError, KeyError, ValueError) as exc:
@@ -1223,7 +1415,7 @@ class Interp:
             if hook is not None:
                 return hook(*args, **kwargs)
             raise AnalysisError("ABSINT", f"call of external {f.name} outside fragment", where)
-        raise AnalysisError("ABSINT", f"call of {src(n.func)} outside fragment", where)
+        raise AnalysisError("ABSINT", f"call of {src(getattr(n, 'func', n))} outside fragment", where)
 
     def builtin(self, name: str, args: list[Any], kwargs: dict[str, Any], n: ast.AST,
                 where: str) -> Any:
@@ -1449,6 +1641,39 @@ class Interp:
                 out.append(x)
         return out
 
+    def class_attr(self, c: ClassInfo, attr: str) -> Any:
+        """A class-level value is created once (when the class body runs) and shared by every instance
+        and every later use in the process; the class body sees the names assigned before it."""
+        store = GLOBAL_STATE["class_attrs"]
+        key = (c.qual, attr)
+        if key not in store:
+            it = self
+
+            class _Body(dict):
+                def __contains__(self, k: object) -> bool:
+                    return k in c.class_attrs and k != attr
+
+                def __getitem__(self, k: str) -> Any:
+                    return it.class_attr(c, k)
+            fake = FuncInfo(f"{c.qual}.<class>", "<class>", ast.FunctionDef(name="<class>"), c.unit)  # type: ignore
+            store[key] = self.eval(c.class_attrs[attr], _Body(), fake)
+        return store[key]
+
+    def _has_abs(self, v: Any) -> bool:
+        return isinstance(v, AObj) or (isinstance(v, (tuple, frozenset)) and any(self._has_abs(x) for x in v))
+
+    def canon_key(self, container: Any, k: Any) -> Any:
+        """The key already in a dict/set that the new key k is equal to (own __hash__ and __eq__), else k."""
+        if not self._has_abs(k):
+            return k
+        hk = self.hash_key(k)
+        for k2 in list(container):
+            if k2 is k:
+                return k2
+            if self._has_abs(k2) and self.hash_key(k2) == hk and self._eq(k, k2):
+                return k2
+        return k
+
     def hash_key(self, v: Any) -> Any:
         """Canonical key standing for hash(v): equal keys <=> equal hashes (up to collisions)."""
         if isinstance(v, OrdInt):
@@ -1503,35 +1728,13 @@ class Interp:
         return [x[1] for x in out] if keyed else out
 
     def _apply2(self, f: Any, x: Any, y: Any) -> Any:
-        if isinstance(f, Lambda):
-            e2 = dict(f.env)
-            ps = [a.arg for a in f.node.args.args]
-            e2[ps[0]], e2[ps[1]] = x, y
-            return self.eval(f.node.body, e2, f.fi)
-        if isinstance(f, FuncRef):
-            return self.call(f.fi, [x, y])
-        if isinstance(f, BoundMethod):
-            return self.call(f.fi, [f.obj, x, y])
-        raise AnalysisError("ABSINT", "binary callable outside fragment")
+        return self.apply_value(f, [x, y], {}, ast.Constant(value=None), "", None)
 
     def _apply(self, f: Any, x: Any) -> Any:
-        if isinstance(f, BoundMethod):
-            return self.call(f.fi, [f.obj, x])
-        if isinstance(f, tuple) and f and f[0] == "builtin":
-            return self.builtin(f[1], [x], {}, ast.Constant(value=None), "")
-        if isinstance(f, ClassRef):
-            return self.eval_call_class(f.ci, [x])
-        if callable(f) and not isinstance(f, (Lambda, FuncRef)):
+        if callable(f) and not isinstance(f, (AObj, ClassRef, FuncRef, BoundMethod, Lambda, LocalFunc,
+                                              ModuleRef, EnumVal, SuperProxy)):
             return f(x)
-        if isinstance(f, Lambda):
-            e2 = dict(f.env)
-            e2[f.node.args.args[0].arg] = x
-            return self.eval(f.node.body, e2, f.fi)
-        if isinstance(f, LocalFunc):
-            return self.call_local(f, [x], {})
-        if isinstance(f, FuncRef):
-            return self.call(f.fi, [x])
-        raise AnalysisError("ABSINT", "key function outside fragment")
+        return self.apply_value(f, [x], {}, ast.Constant(value=None), "", None)
 
 
 _EXC_PARENTS = {
@@ -1552,6 +1755,13 @@ _MISSING = object()
 _BUILTINS = {"map", "filter", "divmod", "pow", "repr", "type", "iter", "vars", "open", "setattr", "getattr", "dir", "round", "print", "reversed", "hash", "id", "len", "any", "all", "sum", "next", "isinstance", "list", "tuple", "set", "sorted",
              "str", "bool", "int", "min", "max", "enumerate", "zip", "range", "hasattr",
              "callable", "float", "abs", "dict", "frozenset", "cast"}
+
+
+def _acc(it: "Interp", xs: Any, f: Any) -> Any:
+    acc = _MISSING
+    for x in it.iterate(xs):
+        acc = x if acc is _MISSING else (it._apply2(f, acc, x) if f is not None else it.binop(ast.Add(), acc, x, ast.Constant(value=None)))
+        yield acc
 
 
 def _load(t: ast.expr) -> ast.expr:
